@@ -99,8 +99,19 @@ def build(rng):
     s1.add_observed_fluent(h(s1.x))
     if rng.random() < 0.5:
         s1.add_precondition(v(s1.x))
-    if rng.random() < 0.5:
-        s1.add_effect(w, Not(w))                  # a sensing action with an effect
+    k_ = rng.random()                             # a sensing action with effects of every kind
+    if k_ < 0.2:
+        s1.add_effect(w, Not(w))
+    elif k_ < 0.4:
+        s1.add_increase_effect(n, 1)
+    elif k_ < 0.55:
+        s1.add_decrease_effect(n, 1)
+        s1.add_effect(w, True, h(s1.x))
+    elif k_ < 0.7:
+        yv = Variable("y", T)
+        s1.add_effect(v(yv), False, Not(h(yv)), forall=[yv])
+    elif k_ < 0.8:
+        s1.add_increase_effect(n, 2, w)
     s2 = SensingAction("s2")
     s2.add_observed_fluents([k(), w()])
     for act in (a, b, s1, s2):
